@@ -44,7 +44,9 @@ def gen(rng, i):
     ptabs = [ts.saving_from_loss(ts.loss_table(rng, n, K, rng.choice([1, 2, hi + 3])), n) for _ in range(p)]
     npv = rng.choice([1, 1, 2, 3])                       # parameters per variable of the collective saving (enters the sparse penalty)
     B2 = rng.choice([1, 3, 5, 9, 15])                    # 2 * (sparse per-component penalty) : odd => half-integer penalty
-    bp = sorted(rng.randint(0, 4) for _ in range(p))
+    bp = [rng.randint(0, 6) for _ in range(p)]
+    if rng.random() < 0.5:
+        bp = sorted(bp, reverse=(rng.random() < 0.6))      # decreasing (like the combined family: a large first increment) or increasing
     return {"n": n, "p": p, "m": m, "M": M, "ctabs": ctabs, "ptabs": ptabs, "ac": rng.choice([0, 1, 3, 6]),
             "bc": [rng.choice([0, 1, 2])] * p, "ap": rng.choice([2, 6, 12]), "bp": bp, "B2": B2, "pattern": pattern, "wide": wide, "npv": npv}
 
